@@ -588,7 +588,9 @@ func newIOConn(rwc io.ReadWriteCloser) *ioConn {
 				if n, readErr := dec.Buffered().Read(tr[:]); n > 0 {
 					// If read byte is not a newline, it is an error.
 					// Support both Unix (\n) and Windows (\r\n) line endings.
-					if tr[0] != '\n' && tr[0] != '\r' {
+					// Blanks and tabs before the line ending are insignificant
+					// whitespace, as they are in front of a message.
+					if tr[0] != '\n' && tr[0] != '\r' && tr[0] != ' ' && tr[0] != '\t' {
 						err = fmt.Errorf("invalid trailing data at the end of stream")
 					}
 				} else if readErr != nil && readErr != io.EOF {
